@@ -219,7 +219,7 @@ template<typename RealType>
 typename LeastSquares<RealType>::Matrix LeastSquares<RealType>::computeEstimateCovariance(
   const RealType & dataVariance)
 {
-  return Ac_.transpose() * inverseJtJ_ * Ac_ * dataVariance;
+  return Ac_ * inverseJtJ_ * Ac_.transpose() * dataVariance;
 }
 
 // TODO(Jean) paralléliser les trois fonctions ci dessous
